@@ -97,6 +97,16 @@ reg("C06",
     "runtime trace monitor + differential twin + trait-availability probes", "DESIGN.md §4 C06")
 
 
+reg("C07",
+    "Exploration by runtime monitoring: random delegated traits with 2-3 competing target types (identical method names) are "
+    "compiled and run with static and dynamic selection; the trace monitor in the impl-block fns records (target fn id, type and "
+    "address of the dependency argument, arguments); a call on Impl<App> must produce exactly one event from the selected target "
+    "with the caller's own &Impl<App>, none from a competing target, the nested dependency calls with the same &Impl<App>, and the "
+    "result of the inherent fn called directly.",
+    "Delegated traits are non-generic (the statement's class); dynamic + borrowed-from-deps returns are a pinned known finding (K11).",
+    "runtime trace monitor + differential twin with competing targets", "DESIGN.md §4 C07")
+
+
 def manifest():
     hooks_commits = subprocess.run(["git", "-C", "/repo", "log", "--format=%H", "--grep=^verif hook"],
                                    stdout=subprocess.PIPE, text=True).stdout.split()
